@@ -189,7 +189,20 @@ crd write conv --command cmt`,
 		if err != nil {
 			return err
 		}
-		return writeYamlOutput(cmd, wArgs.instances)
+		// print the format `write` reads: the chord as written, the settings as resolved
+		result := make([]*input.Instance, len(wArgs.instances))
+		for i, x := range wArgs.instances {
+			result[i] = &input.Instance{
+				Chord:    instances[i].Chord,
+				Values:   x.Values,
+				BPM:      x.BPM,
+				Velocity: x.Velocity,
+				Meter:    x.Meter,
+				Key:      x.Key,
+				Meta:     x.Meta,
+			}
+		}
+		return writeYamlOutput(cmd, result)
 	},
 }
 
